@@ -23,6 +23,8 @@ fn rand_rr(r: &mut Rng, names: &[Vec<Vec<u8>>]) -> ResourceRecord<'static> {
     let class = if r.chance(1, 8) { CLASS::CH } else { CLASS::IN };
     let rdata = match r.below(10) {
         9 => RData::NULL(10, NULL::new(&[7, 7]).unwrap()),
+        // shared records: a service type pointing at an instance
+        5 => RData::PTR(PTR(mk_name(&r.pick(names)[..]))),
         6 => RData::CNAME(CNAME(mk_name(&r.pick(names)[..]))),
         7 => RData::NS(NS(mk_name(&r.pick(names)[..]))),
         8 => RData::HINFO(HINFO { cpu: crate::gen::mk_cs(b"c"), os: crate::gen::mk_cs(b"o") }),
@@ -70,6 +72,14 @@ pub fn c13(tier: &str, seed: u64) -> Vec<Case> {
             names.push(vec![b"foobar".to_vec(), b"local".to_vec()]);
             names.push(vec![b"bar".to_vec(), b"local".to_vec()]);
         }
+        if it % 7 == 3 {
+            // names that protocols built on mDNS give a meaning to (DNS-SD service enumeration, RFC 6763 9; reverse zones;
+            // browse domains): to the store they are names like any other - nothing is answered that was not registered
+            for text in ["_services._dns-sd._udp.local", "_http._tcp.local", "_printer._tcp.local", "b._dns-sd._udp.local", "lb._dns-sd._udp.local", "_dns-sd._udp.local", "_udp.local", "_tcp.local",
+                         "254.169.in-addr.arpa", "1.0.254.169.in-addr.arpa", "_sub._http._tcp.local", "printer._http._tcp.local"] {
+                names.push(text.split('.').map(|l| l.as_bytes().to_vec()).collect());
+            }
+        }
         if it % 5 == 2 {
             // names that differ only in octets that are not UTF-8 (Latin-1 on the wire): different names, whatever their text looks like
             names.push(vec![b"caf\xE9".to_vec(), b"local".to_vec()]);
@@ -95,6 +105,15 @@ pub fn c13(tier: &str, seed: u64) -> Vec<Case> {
             let qc = match r.below(6) { 0 => QCLASS::ANY, 1 => QCLASS::CLASS(CLASS::CH), _ => QCLASS::CLASS(CLASS::IN) };
             let qn = if !pool.is_empty() && r.chance(2, 3) { r.pick(&pool).name.clone() } else { mk_name(&r.pick(&names)[..]) };
             q.questions.push(Question::new(qn, qt, qc, r.chance(1, 4)));
+        }
+        // whatever else the header of the query says (opcode, response code, TC / RD / AA ...): the reply holds every matching
+        // registered record; the property has no exception for them
+        if r.chance(1, 4) {
+            *q.opcode_mut() = *r.pick(&crate::gen::Gen::OPCODES);
+            if r.chance(1, 2) { *q.rcode_mut() = *r.pick(&crate::gen::Gen::RCODES); }
+            let mut fl = PacketFlag::empty();
+            for f in [PacketFlag::AUTHORITATIVE_ANSWER, PacketFlag::TRUNCATION, PacketFlag::RECURSION_DESIRED, PacketFlag::RECURSION_AVAILABLE, PacketFlag::AUTHENTIC_DATA, PacketFlag::CHECKING_DISABLED] { if r.chance(1, 3) { fl |= f; } }
+            q.set_flags(fl);
         }
         // queries carry more than questions: known answers (RFC 6762 7.1), probe records in the authority section, an
         // OPT or the querier's own records in the additional section. Whatever the sender lists, the reply holds every
@@ -371,6 +390,40 @@ fn history(seed: u64, steps: usize) -> Vec<Case> {
 pub fn c20(tier: &str, seed: u64) -> Vec<Case> {
     let (threads, steps, rounds) = if tier == "thorough" { (64usize, 9usize, 8usize) } else { (64, 8, 1) };
     let mut v = vec![];
+    // the lifetime computed for every TTL (the histories below can only watch the first seconds of a life): a record
+    // received with TTL t expires t seconds after it was received - every t up to two hours, then samples up to 2^32 - 1;
+    // the refresh point is compared with the model
+    {
+        let mut ttls: Vec<u32> = (0..=7300).collect();
+        for k in 0..400u32 { ttls.push(7300 + k * k * 37 + k); }
+        for base in [65535u32, 86_400, 604_800, 1 << 24, (1 << 31) - 1, 1 << 31, u32::MAX - 9] { for d in 0..10 { ttls.push(base.saturating_add(d)); } }
+        for t in ttls {
+            let (refresh, expire) = simple_mdns::verif::expiration_offsets(t);
+            let mut c = Case::new(format!("mdns.exp {}", t), format!("{} {}", refresh, expire)).tag("lifetime");
+            if expire != t as u64 { c = c.fail("cache-expiry", format!("a record received with TTL {} is given a life of {} seconds", t, expire)); }
+            else if refresh > expire { c = c.fail("refresh-time", format!("TTL {}: refresh due after {} s, later than the expiry", t, refresh)); }
+            v.push(c);
+        }
+    }
+    // many records under one name: all of them are kept (a host with dozens of addresses, a service type with dozens of
+    // instances), cached and authoritative alike
+    for n in [33usize, 40, 64, 300] {
+        let mut mgr: ResourceRecordManager<'static> = ResourceRecordManager::new();
+        let owner = mk_name(&[b"rack".to_vec(), b"local".to_vec()]);
+        let mut line = String::from("mdns");
+        for k in 0..n {
+            let rr = ResourceRecord::new(owner.clone(), CLASS::IN, 3600, if k % 2 == 0 { RData::A(A { address: k as u32 }) } else { RData::AAAA(AAAA { address: k as u128 }) });
+            if k % 3 == 2 { mgr.add_authoritative_resource(rr.clone()); line.push_str(&format!(" A {}", text::rr(&rr))); }
+            else { mgr.add_cached_resource(rr.clone()); line.push_str(&format!(" C 0 {}", text::rr(&rr))); }
+        }
+        for (fname, filter, auth, cached) in [("cached", DomainResourceFilter::cached(), false, true), ("auth-exact", DomainResourceFilter::authoritative(false), true, false), ("all", DomainResourceFilter::all(), true, true)] {
+            let got: Vec<String> = mgr.get_domain_resources(&owner, filter).flatten().map(|r| text::rr(r)).collect();
+            let want = (0..n).filter(|k| if k % 3 == 2 { auth } else { cached }).count();
+            let mut c = Case::new(format!("{} G {} {} {} {} 1", line, text::name(&owner), (fname != "auth-exact") as u8, auth as u8, cached as u8), sorted(got.clone())).tag("many-per-name").tag(fname);
+            if got.len() != want { c = c.fail(if cached { "cache-expiry" } else { "auth-visibility" }, format!("{} records under one name, {} of them visible to the {} filter: {} returned", n, want, fname, got.len())); }
+            v.push(c);
+        }
+    }
     for round in 0..rounds {
         let handles: Vec<_> = (0..threads).map(|i| { let s = seed.wrapping_mul(1000).wrapping_add((round * threads + i) as u64); std::thread::spawn(move || history(s, steps)) }).collect();
         for h in handles { v.extend(h.join().unwrap()); }
